@@ -23,7 +23,7 @@ MANIFEST = {
  "technique": "property-based testing (Hypothesis): symbolic gradient vs independent forward-mode jet of the same recipe",
 }
 
-CONSTS = [0, 1, 0, 1, 2, 3, -1, 0.5, -2, 1.5, 2.5]
+CONSTS = [0, 1, 0, 1, 2, 3, -1, 0.5, -2, 1.5, 2.5, 0, 1, 2, -1, 2e-9, 4e5]  # incl. a tiny and a large magnitude
 
 
 @st.composite
